@@ -9,15 +9,15 @@ from vf.engine import Violation, InvalidCase
 from vf.fixtures import RecSystem, RecCollector, FalsySystem, near_pow2, check, expect_raises, sized_lists, wone_of
 
 PROPERTY = "C01"
-BUDGET = {"quick": 2400, "thorough": 6000}
-RULE = ("Histories (1-40 ops) of add(id, priority)/remove(id)/step(n) over a pool of 7 system ids with tie-heavy "
+BUDGET = {"quick": 6000, "thorough": 18000}
+RULE = ("Histories (1-40 ops) of add(id, priority)/remove(id)/step(n) (one case in six: interleaved over TWO models alive at once that use the same ids) over a pool of 7 system ids with tie-heavy "
         "integer priorities (Python ints of any size and numpy integer scalars incl. unsigned ones) (incl. collectors with their default priority and system objects that are falsy), interpreted against the real scheduler and "
         "a sorted-list model (key = -priority, registration sequence); plus the exhaustive box. Non-trivial: at some "
         "executed timestep >= 3 systems with >= 2 priority levels and >= 1 tie are registered, or an id is removed and "
         "re-registered. Distinct = digest of the operation list.")
 EXHAUSTIVE_DOMAIN = ("every registration sequence of 1..5 systems over priorities {-1,0,2} (quick: 1..4), each also with "
                      "every single remove-and-re-add (index x new priority), one timestep after every op")
-ASSUMPTIONS = ["priorities are Python ints fixed at registration", "all systems use the default always-on window",
+ASSUMPTIONS = ["priorities are Python ints fixed at registration", "most systems use the default always-on window; one in three cases contains systems with a later start or a frequency of 2 (they then run only when due, in the same relative order)",
                "observation through System.execute() call order and model.systems[id] only"]
 
 POOL = 7
@@ -30,7 +30,8 @@ def _op():
     add = st.fixed_dictionaries({"op": st.just("add"), "id": st.integers(0, POOL - 1), "prio": prio,
                                  "kind": st.sampled_from(["sys", "sys", "sys", "coll", "colldef", "falsy"]),
                                  "np": st.sampled_from([None, None, None, None, "u8", "i8", "i64", "u64", "u16"]),
-                                 "same": st.sampled_from([False, False, True])})
+                                 "same": st.sampled_from([False, False, True]),
+                                 "win": st.sampled_from([None] * 6 + [[1, 1], [2, 1], [3, 2], [0, 2], [5, 1]])})
     rem = st.fixed_dictionaries({"op": st.just("remove"), "id": st.integers(0, POOL - 1), "via": st.sampled_from(["remove_system", "clean_up"])})
     step = st.fixed_dictionaries({"op": st.just("step"), "n": st.sampled_from([1, 1, 1, 2, 3])})
     return wone_of(add, add, add, rem, step)
@@ -76,9 +77,15 @@ def _large_case(draw):
     return {"pool": pool, "ops": ops}
 
 
+def _dual_case(draw):
+    """two models alive at once, the SAME system ids with different priorities in each: per-model state must not be shared"""
+    ops = [dict(o, m=draw(st.integers(0, 1))) for o in draw(sized_lists(_op(), 6, 40))]
+    return {"ops": ops}
+
+
 def strategy(tier):
     hist = st.builds(lambda ops: {"ops": ops}, wone_of(st.lists(_op(), min_size=1, max_size=40), sized_lists(_op(), 5, 40)))
-    small = wone_of(hist, hist, st.composite(_bulk_case)(), st.composite(_bulk_case)(), st.composite(_perm_case)())
+    small = wone_of(hist, hist, st.composite(_bulk_case)(), st.composite(_bulk_case)(), st.composite(_perm_case)(), st.composite(_dual_case)())
     large = st.composite(_large_case)()
     return wone_of(*([small] * 14 + [large]))
 
@@ -116,45 +123,71 @@ def as_priority(op, prio):
     return prio, prio
 
 
+class _State:
+    """bookkeeping for ONE model: several models may be alive at once (they must not influence each other)"""
+
+    def __init__(self):
+        self.model = Model()
+        self.log = []
+        self.live = {}          # id -> (obj, prio, seq, token)
+        self.seq = 0
+        self.removed_once = set()
+        self.graveyard = {}     # id -> last removed object with that id
+        self.rejected = {}      # id -> last object whose registration under that id was rejected
+
+
 def run_case(case):
     POOL = max(1, min(int(case.get("pool", 7)), 300))          # number of system ids (large cases cross size thresholds)
-    model = Model()
-    log = []
-    live = {}          # id -> (obj, prio, seq, token)
-    seq = 0
+    states = {}
     token = 0
+    next_token = [0]        # tokens are unique per system OBJECT (a re-registered object keeps its own)
     nontrivial = False
-    removed_once = set()
-    graveyard = {}     # id -> last removed object with that id
-    rejected = {}      # id -> last object whose registration under that id was rejected
     labels = set()
     ops = list(case["ops"]) + [{"op": "step", "n": 1}]
+    if any(int(o.get("m", 0) or 0) % 2 for o in ops if isinstance(o, dict)):
+        ops.append({"op": "step", "n": 1, "m": 1})
+        ops.append({"op": "step", "n": 1})
 
-    def expected_order():
+    def state(op):
+        m = int(op.get("m", 0) or 0) % 2
+        if m not in states:
+            states[m] = _State()
+        if len(states) > 1:
+            labels.add("two-models-alive")
+        return states[m]
+
+    def expected_order(live):
         return [t for (_, _, _, t) in sorted(live.values(), key=lambda v: (-v[1], v[2]))]
 
     def check_registry(where):
-        for i in range(POOL):
-            got = model.systems[f"s{i}"]
-            want = live[i][0] if i in live else None
-            check(got is want, "registry-membership", f"{where}: systems['s{i}'] is {got!r}, expected {want!r}")
+        for m, s in states.items():
+            for i in range(POOL):
+                got = s.model.systems[f"s{i}"]
+                want = s.live[i][0] if i in s.live else None
+                check(got is want, "registry-membership", f"{where}: model {m}: systems['s{i}'] is {got!r}, expected {want!r}")
 
     for k, op in enumerate(ops):
         kind = op.get("op")
+        S = state(op) if isinstance(op, dict) and kind in ("add", "remove", "step") else None
+        if S is not None:
+            model, log, live, removed_once, graveyard, rejected = S.model, S.log, S.live, S.removed_once, S.graveyard, S.rejected
         if kind == "add":
             i, prio = int(op["id"]) % POOL, int(op["prio"])
             sid = f"s{i}"
-            token += 1
+            next_token[0] += 1
+            token = next_token[0]
             given, prio = as_priority(op, prio)
+            win = op.get("win")
+            wkw = {"start": max(0, int(win[0])), "frequency": max(1, int(win[1]))} if win else {}
             if op.get("kind") == "coll":
-                obj = RecCollector(sid, model, log, token, priority=given)
+                obj = RecCollector(sid, model, log, token, priority=given, **wkw)
             elif op.get("kind") == "colldef":
-                obj = RecCollector(sid, model, log, token)
+                obj = RecCollector(sid, model, log, token, **wkw)
                 prio = -1
             elif op.get("kind") == "falsy":
-                obj = FalsySystem(sid, model, log, token, priority=given)
+                obj = FalsySystem(sid, model, log, token, priority=given, **wkw)
             else:
-                obj = RecSystem(sid, model, log, token, priority=given)
+                obj = RecSystem(sid, model, log, token, priority=given, **wkw)
             if op.get("same") and i in rejected and i not in live:
                 obj = rejected.pop(i)               # an object whose earlier registration was rejected (id was taken) is registered now
                 prio = int(obj.priority)
@@ -171,8 +204,8 @@ def run_case(case):
                 rejected[i] = obj
             else:
                 model.systems.add_system(obj)
-                seq += 1
-                live[i] = (obj, prio, seq, token)
+                S.seq += 1
+                live[i] = (obj, prio, S.seq, token)
                 if i in removed_once:
                     nontrivial = True
                     labels.add("re-add")
@@ -195,13 +228,24 @@ def run_case(case):
         elif kind == "step":
             n = max(1, min(int(op.get("n", 1)), 5))
             del log[:]
+            bystanders = {m_: len(s_.log) for m_, s_ in states.items() if s_ is not S}
+            t_before = model.systems.timestep
             model.execute(n)
-            exp = expected_order()
+            for m_, n_ in bystanders.items():
+                if len(states[m_].log) != n_:
+                    raise Violation("other-model-ran", f"after {k} ops: stepping one model executed systems of model {m_}: {states[m_].log[n_:]}")
+            order_now = expected_order(live)
+            by_token = {t_: o_ for (o_, _, _, t_) in live.values()}
+            exp_all = []                    # systems with a start / frequency window only run when due - in the SAME relative order
+            for ts in range(t_before, t_before + n):
+                exp_all += [t_ for t_ in order_now if by_token[t_].start <= ts and (ts - by_token[t_].start) % by_token[t_].frequency == 0]
             got = [t for (_, t) in log]
-            if got != exp * n:
+            exp = order_now
+            if got != exp_all:
                 prs = {t: p for (_, p, _, t) in live.values()}
                 raise Violation("execution-order",
-                                f"after {k} ops, executed tokens {got}, expected {exp * n} (token->priority {prs})")
+                                f"after {k} ops, timesteps {t_before}..{t_before + n - 1}: executed tokens {got}, expected {exp_all} (token->priority {prs}, "
+                                f"windows {({t_: (o_.start, o_.frequency) for t_, o_ in by_token.items() if (o_.start, o_.frequency) != (0, 1)})})")
             prios = [v[1] for v in live.values()]
             if len(prios) >= 3 and len(set(prios)) >= 2 and len(set(prios)) < len(prios):
                 nontrivial = True
